@@ -77,6 +77,7 @@ type Exec struct {
 	// whose deadline is after this instant (used by promptness oracles).
 	ClockLimit int64
 	LeakOK     bool
+	atExit     []func()
 }
 
 var active *Exec
@@ -117,6 +118,9 @@ func Run(prefix, prefixN []int, horizon int, traceOn bool, body func()) *Exec {
 		e.running = th
 		th.wake <- struct{}{}
 		<-th.exited
+	}
+	for _, f := range e.atExit {
+		f()
 	}
 	active = nil
 	clockOff()
@@ -497,4 +501,38 @@ func (g *Group) Go(f func()) {
 // Wait blocks until every thread started with Go has finished.
 func (g *Group) Wait() {
 	PointIf(func() bool { return g.n == 0 }, "group.Wait")
+}
+
+// AtExit registers f to run after the execution has ended and every thread has
+// been reaped (for releasing OS resources); f must not call scheduling points.
+func AtExit(f func()) {
+	if active != nil {
+		active.atExit = append(active.atExit, f)
+	}
+}
+
+type touchKey struct{}
+
+// Touch marks an access to a heap object by the running thread.  It becomes a
+// scheduling point once a second thread has touched the same object in this
+// execution (dynamic sharing detection).
+func Touch(obj any) {
+	e := active
+	if e == nil {
+		return
+	}
+	m := Local(touchKey{}, func() any { return map[any]int{} }).(map[any]int)
+	cur := e.running.id
+	first, ok := m[obj]
+	switch {
+	case !ok:
+		m[obj] = cur
+		return
+	case first == -2:
+	case first != cur:
+		m[obj] = -2
+	default:
+		return
+	}
+	Point("touch")
 }
